@@ -60,6 +60,7 @@ type CallAssert struct {
 	File     string
 	Off      int
 	Before  bool
+	Assume  bool // 'assume after call ...': an unchecked assumption, listed in the evidence
 	Ordinal int
 	Callee  string
 	Clause  Clause
@@ -171,6 +172,9 @@ func parseContractFile(path string) (*ContractFile, error) {
 		t := s.text
 		word := keywordRe.FindString(t)
 		rest := strings.TrimSpace(t[len(word):])
+		if word == "assume" && !strings.HasPrefix(rest, "func") {
+			word = "assumeat"
+		}
 		switch word {
 		case "import":
 			cf.Imports = append(cf.Imports, strings.Trim(rest, "\""))
@@ -276,7 +280,7 @@ func parseContractFile(path string) (*ContractFile, error) {
 				cl := mkClause(rest, s.no, "alloc")
 				cl.CurrentParams = true
 				cur.Alloc = &cl
-			case "assert":
+			case "assert", "assumeat":
 				// assert at return k: label: expr
 				if strings.HasPrefix(rest, "at return ") {
 					f := strings.Fields(rest)
@@ -301,7 +305,7 @@ func parseContractFile(path string) (*ContractFile, error) {
 				}
 				callee := strings.TrimSuffix(f[3], ":")
 				idx := strings.Index(rest, f[3]) + len(f[3])
-				ca := CallAssert{Before: f[0] == "before", Ordinal: k, Callee: callee}
+				ca := CallAssert{Before: f[0] == "before", Ordinal: k, Callee: callee, Assume: word == "assumeat"}
 				// optional: "since call K NAME:" — old() refers to the state just before that call
 				if len(f) > 8 && f[4] == "since" && f[5] == "call" {
 					sk, err := strconv.Atoi(f[6])
